@@ -1245,7 +1245,8 @@ class Mode(Reduction):
     reduction_aggregate = staticmethod(_mode_aggregate)
 
     def _divisions(self):
-        return self.frame.divisions[0], self.frame.divisions[-1]
+        # the modes are numbered from 0, they are not indexed like the frame
+        return (None, None)
 
     @property
     def chunk_kwargs(self):
